@@ -35,14 +35,15 @@ def plan(prop, tier):
 
 def generate(prop, seed, tier):
     g = Stream(seed, 'gen')
-    rec = g.choice(['none', 'linear', 'any', 'any'])
+    rec = g.choice(['none', 'linear', 'linear-mutual', 'any', 'any'])
     menu = g.choice(['small', 'pos', 'zeros', 'prob']) if rec != 'none' else g.choice(['prob', 'grid', 'zeros', 'inf', 'small', 'pos'])
     vit = g.random() < 0.4
     # the viterbi leg stays inside the rule shapes viterbi() handles on this tree: domains of size >= 2, no node repeated
     # among the externals, no edgeless node, at least one internal node per rule (the rest is a C04 matter, not claimed)
-    spec = G.gen_spec(g, recursion=rec, weights=menu, max_nodes=4, max_edges=3 if rec != 'none' else 4,
+    many = rec == 'linear-mutual'       # several mutually recursive nonterminals, sparse dependencies
+    spec = G.gen_spec(g, recursion=rec, weights=menu, max_nodes=4 if not many else 3, max_edges=3 if rec != 'none' else 4,
                       explicit_ids=g.choice(['mixed', 'none', 'all']), range_domains=True,
-                      min_dom=2 if vit else 1, repeat_ext=not vit)
+                      min_dom=2 if vit else 1, repeat_ext=not vit, max_nts=4 if many else 3, min_nts=3 if many else 1, max_dom=2 if many else 3)
     if vit or g.random() < 0.4:
         G.attach_edgeless(spec, g, 'pos' if menu == 'pos' else 'prob')
     if vit:
